@@ -27,6 +27,7 @@ type harnessSpec struct {
 
 type propertySpec struct {
 	ID        string
+	Own       []string // assertion-id prefixes owned by this property (default: ID + ".")
 	Harnesses []harnessSpec
 	Assume    []string // stated assumptions / stubs for the evidence
 }
@@ -43,6 +44,13 @@ type knownFinding struct {
 }
 
 type knownFindings []knownFinding
+
+func (p *propertySpec) own() []string {
+	if len(p.Own) > 0 {
+		return p.Own
+	}
+	return []string{p.ID + "."}
+}
 
 func loadKnownFindings() (knownFindings, error) {
 	b, err := os.ReadFile(filepath.Join(verifDir(), "known_findings.json"))
@@ -172,7 +180,7 @@ func cmdCheck(args []string) int {
 				infra = append(infra, "harness function not found: "+h.Name)
 				continue
 			}
-			st := vm.Explore(vm.Config{Machine: ld.m, Entry: entry, Harness: h.Name, Workers: runtime.NumCPU(), Params: params, KnownOpen: kf.openMap(), Samples: 3})
+			st := vm.Explore(vm.Config{Machine: ld.m, Entry: entry, Harness: h.Name, Workers: runtime.NumCPU(), Params: params, KnownOpen: kf.openMap(), Samples: 3, OwnPrefixes: spec.own()})
 			fmt.Printf("[%s %s] ", prop, h.Name)
 			printStats(st, ld.loadS)
 			he := harnessEvidence{Harness: h.Name, Bounds: params, Decisions: st.Decisions, Covers: st.Covers, Exhaustive: st.Exhausted, WallS: st.Wall.Seconds(), Desc: h.Desc,
